@@ -836,3 +836,14 @@ func RecvTimeout[T any](ch <-chan T, done <-chan struct{}, d time.Duration) (v T
 	post("select")
 	return v, status
 }
+
+// Node returns the calling goroutine's node tag.
+func Node() string {
+	if s := S; s != nil {
+		g := s.cur()
+		s.mu.Lock()
+		defer s.mu.Unlock()
+		return g.node
+	}
+	return ""
+}
